@@ -84,17 +84,51 @@ def source_delay(spec):
 # -- expected values ------------------------------------------------------------
 
 
+def _agg_plain(kind, vals):
+  if kind == 'sum':
+    a = c16lib.SumCount()
+    return a.get_result(a.update_state(a.create_state(), vals))
+  return sorted(vals)
+
+
 def expected(spec):
   """(batches, aggregate dict | None) by plain Python, no pipeline code."""
   base = {k: v for k, v in spec.items() if k != 'mid_agg'}
   outs, agg = c16lib.reference(base)
   want = dict(agg) if agg is not None else None
+  if spec.get('slice') and spec.get('agg'):
+    by = {}
+    for o in outs:
+      for v in o:
+        by.setdefault(int(v).bit_length(), []).append(v)
+    for b, vals in by.items():
+      want[f'agg|bits={b}'] = _agg_plain(spec['agg'], vals)
   mid = spec.get('mid_agg')
   if mid:
     _, magg = c16lib.reference(dict(base, ops=spec['ops'][:mid['after']], agg=mid['kind']))
     want = dict(want or {})
     want['mid'] = magg['agg']
   return outs, want
+
+
+def slice_bits(x):
+  """Per-row slice function of the optional slicing of the final aggregate."""
+  yield int(x).bit_length()
+
+
+def norm_agg(res):
+  """Aggregate result with MetricKey(metrics, slice) keys spelled as strings."""
+  if res is None:
+    return None
+  out = {}
+  for k, v in dict(res).items():
+    if isinstance(k, str):
+      out[k] = v
+    else:
+      sl = k.slice
+      out[f'{k.metrics}|{",".join(map(str, sl.features))}='
+          f'{",".join(str(int(x)) for x in sl.values)}'] = v
+  return out
 
 
 def canon(batches):
@@ -220,7 +254,11 @@ def _add(t, el, spec, layout, shard):
   if el[0] == 'source':
     return t.data_source(_make_source(spec, layout, shard))
   if el[0] == 'agg':
-    return t.aggregate(fn=_AGGS[el[1]](), output_keys=el[2])
+    t = t.aggregate(fn=_AGGS[el[1]](), output_keys=el[2])
+    if el[2] == 'agg' and spec.get('slice'):
+      from ml_metrics._src.chainables import tree
+      t = t.add_slice(tree.Key.SELF, 'bits', slice_bits)
+    return t
   op = el[1]
   if op[0] == 'filter':
     return t.filter(c16lib.op_keep)
